@@ -37,7 +37,7 @@ def run(module: str, cfg: str, *, env: Optional[Dict[str, str]] = None, workers:
     t0 = time.time()
     meta = workdir("tlc")
     cfgp = Path(cfg) if os.path.isabs(cfg) else SPECS / cfg
-    cmd = ["java", "-XX:+UseParallelGC", f"-Xmx{heap}", "-Xss64m"]
+    cmd = ["java", "-XX:+UseParallelGC", f"-Xmx{heap}", "-Xss64m", f"-Djava.io.tmpdir={meta}"]
     if dfs:
         cmd.append("-Dtlc2.tool.queue.IStateQueue=StateDeque")
     cmd += ["-cp", f"{JAR}:{DEPS}", "tlc2.TLC", "-metadir", str(meta), "-noGenerateSpecTE",
